@@ -2,8 +2,16 @@
 From Coq Require Import List NArith ZArith Bool.
 From Emmet Require Import lib.Base lib.Wire model.MarkupTokenizer model.MarkupParser model.MarkupConvert
      model.MarkupResolve model.OutStream model.FormatHtml model.FormatIndent model.MarkupExpand
-     gen.GenMarkupSnippets gen.GenAttr run.MarkupRun proofs.AttrProofs.
+     gen.GenMarkupSnippets gen.GenAttr run.MarkupRun.
 Import ListNotations.
+
+(* (kept local so that the 2-minute sweep is not rebuilt when other proof files change) *)
+Lemma a_str_eqb_eq : forall a b, str_eqb a b = true <-> a = b.
+Proof.
+  induction a as [|x a IH]; destruct b as [|y b]; simpl; split; intro H; try reflexivity; try discriminate.
+  - apply andb_true_iff in H. destruct H as [H1 H2]. apply N.eqb_eq in H1. apply IH in H2. subst. reflexivity.
+  - inversion H; subst. rewrite N.eqb_refl. simpl. apply IH. reflexivity.
+Qed.
 
 Definition n_html : str := [104;116;109;108]%N.
 Definition n_xsl : str := [120;115;108]%N.
